@@ -203,8 +203,8 @@ func variantCols(r *rng, cols []colDesc) []colDesc {
 	return out
 }
 
-var templNumbers = []string{"0", "1", "-1", "255", "256", "65536", "1.5", "-0", "1e3", "1E+2", "12345678901234567890", "253402300800", "1632478272", "-62135596801", "0.10", "127", "128", "-129", "4294967296"}
-var templStrings = []string{"", "x", "12", "-7", "1.5", "true", "false", "aGk=", "aGk", "AAAAAAAAAAA=", "AQ==", "2021-09-24", "2021-02-30", "2021-09-24T10:11:12Z",
+var templNumbers = []string{"-0.0", "-0e0", "-1e-400", "100000000000", "253402214400", "0", "1", "-1", "255", "256", "65536", "1.5", "-0", "1e3", "1E+2", "12345678901234567890", "253402300800", "1632478272", "-62135596801", "0.10", "127", "128", "-129", "4294967296"}
+var templStrings = []string{"5138-11-16T09:46:40Z", "9999-12-31T23:59:59Z", "[1,2]", "{}", "\"12\"", "-0.0", "", "x", "12", "-7", "1.5", "true", "false", "aGk=", "aGk", "AAAAAAAAAAA=", "AQ==", "2021-09-24", "2021-02-30", "2021-09-24T10:11:12Z",
 	"2021-09-24T10:11:12+05:30", "2021-09-24T10:11:12.5-03:30", "é", "<&>", "1e3", "0x10", " 1", "null", "1632478272", "18446744073709551615"}
 
 func genTemplVal(r *rng, depth int) *jnode {
@@ -235,6 +235,39 @@ func genTemplVal(r *rng, depth int) *jnode {
 	return &jnode{kind: 'n', s: "7"}
 }
 
+// a value chosen against a column's format: texts and numbers that look like another class
+func genAgainst(r *rng, f jsonline.Format) *jnode {
+	str := func(l ...string) *jnode { return &jnode{kind: 's', s: l[r.intn(len(l))]} }
+	num := func(l ...string) *jnode { return &jnode{kind: 'n', s: l[r.intn(len(l))]} }
+	switch f {
+	case jsonline.Numeric, jsonline.Timestamp:
+		if r.bool() {
+			return str("true", "[1,2]", "{}", "\"12\"", "null", "abc", "1e3", "0x10", "12", "-0.0", "1.5", " 1", "2021-09-24T10:11:12Z", "5138-11-16T09:46:40Z")
+		}
+		return num("-0.0", "1.5", "1e3", "-1e-400", "100000000000", "253402214400", "12345678901234567890", "9007199254740993", "9223372036854775807")
+	case jsonline.Date:
+		if r.intn(3) != 0 {
+			return str("2021-09-24T10:11:12Z", "2021-03-04T05:06:07+02:00", "2021-02-30", "2021-09-24", "20210924", "2021-9-4", "0000-01-01", "9999-12-31")
+		}
+		return num("0", "1632478272", "253402300800", "100000000000")
+	case jsonline.DateTime:
+		if r.intn(3) != 0 {
+			return str("2021-09-24", "2021-09-24T10:11:12Z", "2021-09-24T10:11:12.5-03:30", "5138-11-16T09:46:40Z", "9999-12-31T23:59:59Z", "2021-09-24 10:11:12", "1632478272")
+		}
+		return num("0", "1632478272", "253402300800", "100000000000", "1.5")
+	case jsonline.Boolean:
+		return str("true", "false", "1", "0", "yes", "TRUE", "t", "")
+	case jsonline.Binary:
+		return str("", "aGk=", "aGk", "AAAAAAAAAAA=", "AQ==", "@@", "a GVsbG8=", "aGk=\n")
+	case jsonline.String, jsonline.Auto:
+		if r.bool() {
+			return num("-0.0", "1E+2", "0.10", "12345678901234567890")
+		}
+		return str("", "<&>", "é", "\"q\\", "null", "12")
+	}
+	return &jnode{kind: 'z'}
+}
+
 // an input object for templates with these columns: declared keys in any order, some missing, extra keys
 func genTemplDoc(r *rng, cols []colDesc, depth int) *jnode {
 	n := &jnode{kind: 'o'}
@@ -262,7 +295,11 @@ func genTemplDoc(r *rng, cols []colDesc, depth int) *jnode {
 			}
 		}
 		if v == nil {
-			v = genTemplVal(r, depth)
+			if col := findCol(cols, k); col != nil && col.sub == nil && r.intn(3) == 0 {
+				v = genAgainst(r, col.f)
+			} else {
+				v = genTemplVal(r, depth)
+			}
 		}
 		n.keys = append(n.keys, k)
 		n.kids = append(n.kids, v)
@@ -487,6 +524,14 @@ func (c *templCtx) checkOrder(cols []colDesc, in, out *refNode, ctx map[string]i
 		c.violate("C03", what, ctx)
 	}
 	c.rep.OracleChecks["C03"]++
+	if level == "top level" {
+		for i, k := range out.keys {
+			col := findCol(cols, k)
+			if col != nil && col.sub == nil && (in == nil || in.kind != 'o' || in.member(k) == nil) && out.kids[i].kind != 'z' {
+				c.violate("C03", fmt.Sprintf("order: declared column %q is missing from the input but is emitted as %s instead of null", k, out.kids[i].raw), ctx)
+			}
+		}
+	}
 	// below: sub-rows recursively; objects under any other column keep their input member order
 	for i, k := range out.keys {
 		col := findCol(cols, k)
@@ -611,9 +656,18 @@ func (c *templCtx) oneCase(tier string) string {
 		if len(inCols) == 0 {
 			doc = genTemplDoc(r, outCols, 0)
 		}
+		if i == 0 && r.intn(10) == 0 {
+			// a long line: the object and its newline must still reach the writer in one Write
+			doc.keys = append(doc.keys, "long")
+			doc.kids = append(doc.kids, &jnode{kind: 's', s: strings.Repeat("x", 4090+r.intn(20))})
+		}
 		line := c.lineOf(doc)
+		noteCase("template", "input template "+descString(inCols)+" output template "+descString(outCols)+" line "+line)
 		ctx := ctxBase()
 		ctx["line"] = line
+		if len(line) > 300 {
+			ctx["line"] = line[:200] + "…(" + fmt.Sprint(len(line)) + " bytes)"
+		}
 		var row jsonline.Row
 		var err error
 		p, msg := guard(func() { row, err = ti.GetImporter(strings.NewReader(line)).ReadOne() })
@@ -827,7 +881,11 @@ func (c *templCtx) judgeOutput(inCols, outCols []colDesc, same bool, line string
 		c.rep.OracleChecks["C05"]++
 		row2, err := to.GetImporter(bytes.NewReader(body)).ReadOne()
 		if err != nil {
-			c.violate("C05", fmt.Sprintf("fixed point: the emitted line is rejected by its own output template: %v", err), ctx)
+			what := fmt.Sprintf("fixed point: the emitted line is rejected by its own output template: %v", err)
+			if yearIssue(tree) {
+				what = "year outside 0-9999: " + what
+			}
+			c.violate("C05", what, ctx)
 			return
 		}
 		out2, err2, _, p2, _ := exportOnce(to, row2)
@@ -1065,6 +1123,77 @@ func (c *templCtx) typedRoundTrips() {
 	}
 }
 
+// ---------- C05: systematic fixed-point sweep over the lossless pairings ----------
+
+var sweepValues = []string{`null`, `true`, `false`, `0`, `1`, `-1`, `-0`, `-0.0`, `-0e0`, `-1e-400`, `1.5`, `0.10`, `1E+2`, `1e3`, `127`, `128`, `255`, `256`,
+	`65535`, `65536`, `4294967296`, `9007199254740993`, `9223372036854775807`, `12345678901234567890`, `1632478272`, `100000000000`, `127174485600`,
+	`253402214400`, `"x"`, `""`, `"12"`, `"-7"`, `"1.5"`, `"-0.0"`, `"true"`, `"aGk="`, `"AAAAAAAAAAA="`, `"AQ=="`, `"2021-09-24"`,
+	`"2021-09-24T10:11:12Z"`, `"2021-09-24T10:11:12+05:30"`, `"2021-10-31T02:30:00.5+02:00"`, `"5138-11-16T09:46:40Z"`, `"9999-12-31T23:59:59Z"`, `"é"`, `"<&>"`}
+
+func (c *templCtx) fixedPointSweep() {
+	inputs := []struct {
+		name string
+		cols []colDesc
+	}{
+		{"{}", nil},
+		{"{c:datetime}", []colDesc{{name: "c", f: jsonline.DateTime}}},
+		{"{c:string}", []colDesc{{name: "c", f: jsonline.String}}},
+		{"{c:numeric}", []colDesc{{name: "c", f: jsonline.Numeric}}},
+	}
+	for _, f := range allFormats {
+		for _, t := range losslessTypes(f) {
+			out := []colDesc{{name: "c", f: f, typName: t}}
+			to := buildTemplate(out)
+			for _, in := range inputs {
+				ti := buildTemplate(in.cols)
+				for _, v := range sweepValues {
+					line := `{"c":` + v + `}`
+					row, err := ti.GetImporter(strings.NewReader(line)).ReadOne()
+					if err != nil {
+						continue
+					}
+					L, err, nw, p, _ := exportOnce(to, row)
+					if err != nil || p || nw != 1 {
+						continue
+					}
+					if bytes.Contains(L, []byte("\\ufffd")) {
+						continue
+					}
+					c.rep.OracleChecks["C05"]++
+					ctx := map[string]interface{}{"stream": "template", "input_template": in.name, "output_template": descString(out), "line": line,
+						"output": string(bytes.TrimSuffix(L, []byte("\n"))), "tz": os.Getenv("TZ")}
+					row2, err := to.GetImporter(bytes.NewReader(bytes.TrimSuffix(L, []byte("\n")))).ReadOne()
+					if err != nil {
+						what := fmt.Sprintf("fixed point: the emitted line is rejected by its own output template: %v", err)
+						if yearOutOfRangeLine(L) {
+							what = "year outside 0-9999: " + what
+						}
+						c.violate("C05", what, ctx)
+						continue
+					}
+					L2, err2, _, p2, _ := exportOnce(to, row2)
+					if err2 != nil || p2 {
+						c.violate("C05", fmt.Sprintf("fixed point: the emitted line cannot be re-emitted by its own output template: %v", err2), ctx)
+						continue
+					}
+					if !bytes.Equal(L, L2) {
+						what := fmt.Sprintf("fixed point: second pass gives %q", L2)
+						if yearOutOfRangeLine(L) {
+							what = "year outside 0-9999: " + what
+						}
+						c.violate("C05", what, ctx)
+					}
+				}
+			}
+		}
+	}
+}
+
+func yearOutOfRangeLine(L []byte) bool {
+	t, err := refTree(bytes.TrimSuffix(L, []byte("\n")))
+	return err == nil && yearIssue(t)
+}
+
 // ---------- the stream ----------
 
 func templateStream(seed uint64, tier string, outDir string, props map[string]bool, focus string) *streamReport {
@@ -1104,6 +1233,9 @@ func templateStream(seed uint64, tier string, outDir string, props map[string]bo
 	flush()
 	if props["C13"] || props["C17"] {
 		c.typedRoundTrips()
+	}
+	if props["C05"] {
+		c.fixedPointSweep()
 	}
 	return rep
 }
